@@ -584,3 +584,30 @@ func PadCells(t *sim.T, m *StaticModel) string {
 	}
 	return strings.Join(descs, "; ")
 }
+
+// MergeHeaderCells rewrites one table so that two adjacent header cells become a single cell that holds
+// both names joined by a separator (and likewise the two cells of every row): a sibling input whose header
+// row is a different list of cells with the same text once joined. Under a correct parser the sibling simply
+// lacks those two columns; a cache keyed by the joined header text confuses the two layouts.
+func MergeHeaderCells(t *sim.T, m *StaticModel) string {
+	tb := pickTable(t, m.Feed)
+	if tb == nil || len(tb.Header) < 2 {
+		return ""
+	}
+	i := t.Choose(len(tb.Header) - 1)
+	sep := []string{",", ",", ",", "|", "", " ", ";", "\t", "\x00", "/"}[t.Choose(10)]
+	merge := func(rec []string) []string {
+		if len(rec) <= i+1 {
+			return rec
+		}
+		out := append([]string(nil), rec[:i]...)
+		out = append(out, rec[i]+sep+rec[i+1])
+		return append(out, rec[i+2:]...)
+	}
+	desc := fmt.Sprintf("%s: header cells %q and %q merged into one cell with separator %q", tb.Name, tb.Header[i], tb.Header[i+1], sep)
+	tb.Header = merge(tb.Header)
+	for r := range tb.Rows {
+		tb.Rows[r] = merge(tb.Rows[r])
+	}
+	return desc
+}
